@@ -37,6 +37,12 @@ def parseObs (toks : List String) : List Out × Spec.StObs :=
   | [o, se, c, m, n] => (outs, ⟨tokInt o, tokInt se, tokNat c, tokNat m, tokNat n⟩)
   | _ => (outs, default)
 
+def devProps : List String := ["C01", "C02", "C03", "C04", "C05", "C06", "C07", "C08", "C13", "C14"]
+
+def firstDiff : List String → List String → Nat → Nat
+  | a :: as, b :: bs, i => if a = b then firstDiff as bs (i + 1) else i
+  | _, _, i => i
+
 def failTok (f : Spec.Fail) : String := s!"{f.prop}:{f.step}:{f.clause}"
 
 def emptyMapping (name : String) : Mapping := { name := name, midi := [], analog := [], dz := [], defDz := [] }
@@ -98,7 +104,15 @@ def DevSt.line (s : DevSt) (toks : List String) : DevSt × Option String :=
     let modT : Spec.Trace := ⟨s.cfg, Spec.StObs.ofDev (Dev.init s.cfg), s.modSteps.reverse, s.modCleanup⟩
     let fo := Spec.checkTrace obsT
     let fm := Spec.checkTrace modT
-    (s, some s!"mon impl={" ".intercalate (fo.map failTok)} ; model={" ".intercalate (fm.map failTok)}")
+    let oo := Spec.observe obsT
+    let om := Spec.observe modT
+    let diffs := devProps.filterMap (fun p =>
+      let a := Spec.obsOf p oo
+      let b := Spec.obsOf p om
+      if a = b then none else
+        let i := firstDiff a b 0
+        some s!"{p}@{i}")
+    (s, some s!"mon impl={" ".intercalate (fo.map failTok)} ; model={" ".intercalate (fm.map failTok)} ; diff={" ".intercalate diffs}")
   | ["key", sub, code, val] =>
     let e : Ev := (.key (tokSub sub) (tokNat code) (tokInt val))
     let (d, o) := s.dev.step e
